@@ -1,11 +1,11 @@
-"""C02 — paths built from beacons are accepted hop by hop and reach the destination.
+"""C07 — forwarded packets change only in the path's mutable state.
 
-Exhaustive: Dataplane.tla (honest mode) — beaconing by definition with symbolic MACs, path
-combination by definition, RouterStep = transcription of the router; invariant: every combination of
-every topology family is forwarded along its interface list and delivered.
-Binding: real DefaultExtender beacons -> real combinator.Combine (all identical constructions) ->
-real routers (router export H1), every (src, dst, path) of T1-T3 plus seeded random topologies;
-DataplaneTrace.tla (Prop = C02) judges every router visit against the path metadata and topology."""
+Every router visit of every journey (requests, replies, SCMP answers) logs the byte-wise difference
+between the received and the forwarded packet (random payloads, traffic class, flow id, HBH/E2E
+extension headers).  DataplaneTrace.tla (Prop = C07) maps each changed offset to the packet layout
+derived from the logged pre-state: allowed are the CurrINF/CurrHF byte, the SegID bytes of the current
+(at a cross-over: old and new) info field, consumed router-alert bits; length unchanged.  In the model
+(Dataplane.tla) the same frame condition is the action property Frame."""
 import _dp
 
 
@@ -18,12 +18,12 @@ def run(c):
         trace = c.scratch + "/dp.ndjson"
         c.run_driver(drv, ["-mode", "honest", "-out", trace, "-topos", "T1,T2,T3",
                            "-random", 40 if c.thorough else 3])
-    _dp.validate(c, "C02", trace)
+    _dp.validate(c, "C07", trace)
     _dp.coverage(c, trace, lambda r, evs: r["mode"] == "honest" and any(
-        e["ev"] == "hop" and e["j"] == "req" for e in evs),
+        e["ev"] == "hop" and e["disp"] == "forward" for e in evs),
         "every path returned by the real combinator (findAllIdentical) for every ordered AS pair of "
         "T1-T3 and a sample for seeded random topologies, walked through the real routers; a journey "
-        "is non-trivial if at least one router processed the request; distinct = distinct (topology, "
+        "is non-trivial if at least one router forwarded a packet; distinct = distinct (topology, "
         "segment lengths, ConsDir/Peer flags, path type) shapes")
     c.assumptions += [
         "packets are injected into the real packet processors through the router export (no sockets)",
